@@ -147,7 +147,7 @@ def _dtls():
         return {
             "fn": media_sim.run_dtls, "spec": {}, "level": "exploration", "quick_s": 40, "thorough_s": 480,
             "rule": RULE_DTLS, "components": comps,
-            "state_measure": "none beyond the (expected verdict A, expected verdict B) classes counted as probes",
+            "state_measure": "(expected verdict A, expected verdict B, role assignment, early sender, profile list lengths) per run",
             "assumptions": ["DTLS handshake datagrams are delayed but never lost or altered (OpenSSL's retransmission timer reads the real clock)",
                             "expected verdicts are computed with hashlib over the peer certificate's DER and from the two profile lists",
                             "sampling, not enumeration: a clean batch is evidence, not proof"],
